@@ -174,6 +174,8 @@ pub struct Machine<'a, 'h> {
     pub mem: Mem,
     pub args: Vec<MV>,
     vals: Vec<Option<MV>>,
+    /// ids whose current value was produced by a memory load instruction
+    from_load: Vec<bool>,
     iter: Vec<IterFrame>,
     payload: Vec<Option<Val>>,
     pub ev: Events,
@@ -193,6 +195,7 @@ impl<'a, 'h> Machine<'a, 'h> {
             mem,
             args: vec![],
             vals: vec![],
+            from_load: vec![],
             iter: vec![],
             payload: vec![],
             ev: Events::default(),
@@ -206,8 +209,10 @@ impl<'a, 'h> Machine<'a, 'h> {
         let i = op as usize;
         if self.vals.len() <= i {
             self.vals.resize(i + 1, None);
+            self.from_load.resize(i + 1, false);
         }
         self.vals[i] = Some(v);
+        self.from_load[i] = false;
     }
 
     pub fn get(&self, op: Op) -> R<MV> {
@@ -382,6 +387,7 @@ impl<'a, 'h> Machine<'a, 'h> {
                     }
                 };
                 self.set(n.results[0], MV::Core(v));
+                self.from_load[n.results[0] as usize] = true;
             }
             Inst::Store(kind, offset) => {
                 let (want, len) = match kind {
@@ -423,6 +429,26 @@ impl<'a, 'h> Machine<'a, 'h> {
                     _ => CoreTy::I32,
                 };
                 let b = self.core(n, 0, want)?;
+                // A narrow integer that comes straight out of a memory load must
+                // already be the canonical i32 of its value: the load instructions
+                // are documented as zero-/sign-extending, so the generator has to
+                // pick the one matching the type's signedness (flat values coming
+                // from a caller may carry garbage above the narrow width instead).
+                if self.from_load.get(n.operands[0] as usize).copied().unwrap_or(false) {
+                    let canon = match s {
+                        Scalar::U8 => b as u8 as u64,
+                        Scalar::S8 => b as u8 as i8 as i32 as u32 as u64,
+                        Scalar::U16 => b as u16 as u64,
+                        Scalar::S16 => b as u16 as i16 as i32 as u32 as u64,
+                        _ => b,
+                    };
+                    if canon != b {
+                        return Err(MErr::new(
+                            "load-extension-mismatch",
+                            format!("{:?} receives {b:#x} from a memory load: not the {} i32 of that value ({canon:#x}); wrong signedness of the load", n.inst, if matches!(s, Scalar::S8 | Scalar::S16) { "sign-extended" } else { "zero-extended" }),
+                        ));
+                    }
+                }
                 let v = match s {
                     Scalar::Bool => match b {
                         0 => Val::Bool(false),
